@@ -1,5 +1,5 @@
 """property id -> clauses (rule functions) + the honest remainder.  Single source for MANIFEST.json."""
-from . import r2, r3
+from . import r2, r3, r6
 
 
 def fam(*names):
@@ -106,11 +106,12 @@ PROPS = {
         "technique": T_R2,
     },
     "C11": {
-        "clauses": [guards("root")],
-        "not_decided": "Newton convergence, the u64 fast path, float guesses; std/no_std confinement of the guess (planned R6)",
+        "clauses": [guards("root"), r6.check_cfg_taint, r3.check_division_sites],
+        "not_decided": "Newton convergence (assumed: fixpoint reaches the floor root from any guess), the u64 fast path, float guesses",
         "level_text": "Decides: n > 0 (zeroth root) and the imaginary-root assertions (negative with even degree, sqrt of a negative) are mandatory in release builds, "
-        "test the right operands and dominate every return.",
-        "technique": T_R3,
+        "test the right operands and dominate every return; the std/no_std difference in nth_root/sqrt/cbrt is confined to the initial guess passed to "
+        "fixpoint (cfg-taint over the two builds' MIR), so the results cannot depend on the availability of floats given Newton convergence.",
+        "technique": T_R3 + "; cross-configuration MIR diff with forward taint (cfg-taint)",
     },
     "C12": {
         "clauses": [fam("Pow")],
@@ -145,6 +146,16 @@ PROPS = {
         "checked variants return None on the failure edge and reach the panicking operation only behind the excluding edge; no mandatory assertion is "
         "debug-only; debug-only code is effect-free.",
         "technique": T_R3 + "; dev-vs-release panic-site inventory",
+    },
+    "C16": {
+        "clauses": [r6.check_matrix, r6.check_feature_stability, r6.check_cfg_taint, r3.check_inventory],
+        "not_decided": "equality of results where it rests on arithmetic (Newton fixpoint independent of the guess; float helper agreement; absence of overflow so that "
+        "overflow-check and wrapping builds agree); the 32-bit-digit configuration (not compiled on this target)",
+        "level_text": "Decides: all ten documented feature configurations type-check; enabling serde/rand/quickcheck/arbitrary changes the canonical MIR of no function that "
+        "exists without them (std and no_std); every function whose code differs between std and no_std lets configuration-dependent values reach only "
+        "capacity estimates or the Newton initial guess, never its result; explicit panic sites outside debug-only code are the same in dev and release "
+        "and debug-only code is effect-free.",
+        "technique": "type checking of the 10-configuration matrix; canonical MIR fingerprints across 4 fact configurations; cfg-taint (cross-config line diff + forward dataflow); dev-vs-release inventory",
     },
     "C18": {
         "clauses": [guards("range", "bound")],
